@@ -1,7 +1,7 @@
 #!/bin/bash
 # Confirms a seeded change: applies /tmp/seed-<P>-out/patch<i>.diff in the scratch worktree /tmp/seed-<P>, checks that the repo builds
 # and its tests pass, that the demo fails with the patch and passes without it.   usage: lib/seedconfirm.sh P i
-P=$1; I=$2; WT=/tmp/seed-$P; OUT=/tmp/seed-$P-out
+P=$1; I=$2; TAG=${SEEDTAG:-}; WT=/tmp/seed$TAG-$P; OUT=/tmp/seed$TAG-$P-out
 export GOFLAGS=-mod=mod GOPROXY=off
 cd $WT && git checkout -q -- . && git apply $OUT/patch$I.diff || { echo "APPLY-FAILED"; exit 2; }
 T=$( (go build ./... && go test -count=1 ./... ) 2>&1 | grep -c "^FAIL\|cannot\|error" )
